@@ -1,5 +1,7 @@
+#[cfg(test)]
 use std::iter::Enumerate;
 use std::num::ParseIntError;
+#[cfg(test)]
 use std::str::Chars;
 
 /// Error type of [unescape](unescape).
@@ -42,6 +44,8 @@ pub enum ParseUnicodeError {
     },
 }
 
+// Superseded by `parse_literal`; only exercised by this module's unit tests.
+#[cfg(test)]
 pub fn parse_bytes(s: &str) -> Result<Vec<u8>, ParseSequenceError> {
     let mut chars = s.chars().enumerate();
     let mut res: Vec<u8> = Vec::with_capacity(s.len());
@@ -139,6 +143,107 @@ pub fn parse_bytes(s: &str) -> Result<Vec<u8>, ParseSequenceError> {
     Ok(res)
 }
 
+/// Decodes the text of a `STRING` or `BYTES` token exactly as the lexer produced it: an optional
+/// `b`/`B` prefix (bytes), an optional `r`/`R` prefix (raw), and the contents between a pair of
+/// single or triple quotes. The lexer has already checked the shape of the token, so quote
+/// characters inside the contents are plain characters.
+///
+/// In a string every escape denotes a code point; in a bytes literal `\x`, `\X` and octal
+/// escapes denote a single octet and `\u` / `\U` are not allowed. Raw literals perform no
+/// escape processing. The result is the UTF-8 encoding of a string literal, or the octets of a
+/// bytes literal.
+pub fn parse_literal(token: &str, is_bytes: bool) -> Result<Vec<u8>, ParseSequenceError> {
+    let mut body = token;
+    if is_bytes {
+        body = body
+            .strip_prefix(['b', 'B'])
+            .ok_or(ParseSequenceError::MissingOpeningQuote)?;
+    }
+    let raw = body.starts_with(['r', 'R']);
+    if raw {
+        body = &body[1..];
+    }
+    let quote = match body.chars().next() {
+        Some(c) if c == '\'' || c == '"' => c,
+        _ => return Err(ParseSequenceError::MissingOpeningQuote),
+    };
+    let triple: String = [quote; 3].iter().collect();
+    let width = if body.len() >= 6 && body.starts_with(&triple) && body.ends_with(&triple) {
+        3
+    } else {
+        1
+    };
+    if body.len() < 2 * width || !body.ends_with(quote) {
+        return Err(ParseSequenceError::MissingClosingQuote);
+    }
+    let content = &body[width..body.len() - width];
+    if raw {
+        return Ok(content.as_bytes().to_vec());
+    }
+
+    let invalid = |escape: String, index: usize| ParseSequenceError::InvalidEscape {
+        escape,
+        index,
+        string: String::from(token),
+    };
+    let mut res: Vec<u8> = Vec::with_capacity(content.len());
+    let mut buf = [0u8; 4];
+    let mut chars = content.chars().enumerate();
+    while let Some((idx, c)) = chars.next() {
+        if c != '\\' {
+            res.extend_from_slice(c.encode_utf8(&mut buf).as_bytes());
+            continue;
+        }
+        let (idx, c2) = chars.next().ok_or_else(|| invalid(c.to_string(), idx))?;
+        // numeric escapes: how many digits, in which base
+        let numeric = match c2 {
+            'x' | 'X' => Some((2, 16)),
+            'u' if !is_bytes => Some((4, 16)),
+            'U' if !is_bytes => Some((8, 16)),
+            '0'..='3' => Some((2, 8)),
+            _ => None,
+        };
+        if let Some((digits, radix)) = numeric {
+            let mut text = String::with_capacity(8);
+            if radix == 8 {
+                text.push(c2);
+            }
+            for _ in 0..digits {
+                match chars.next() {
+                    Some((_, d)) if d.is_digit(radix) => text.push(d),
+                    _ => return Err(invalid(format!("\\{c2}"), idx)),
+                }
+            }
+            let value =
+                u32::from_str_radix(&text, radix).map_err(|_| invalid(format!("\\{c2}"), idx))?;
+            if is_bytes && matches!(c2, 'x' | 'X' | '0'..='3') {
+                res.push(u8::try_from(value).map_err(|_| invalid(format!("\\{c2}"), idx))?);
+            } else {
+                let ch = char::from_u32(value).ok_or(ParseSequenceError::InvalidUnicode {
+                    source: ParseUnicodeError::Unicode { value },
+                    index: idx,
+                    string: String::from(token),
+                })?;
+                res.extend_from_slice(ch.encode_utf8(&mut buf).as_bytes());
+            }
+            continue;
+        }
+        let value = match c2 {
+            'a' => '\u{07}',
+            'b' => '\u{08}',
+            'v' => '\u{0B}',
+            'f' => '\u{0C}',
+            'n' => '\n',
+            'r' => '\r',
+            't' => '\t',
+            '\\' | '?' | '\'' | '"' | '`' => c2,
+            _ => return Err(invalid(format!("{c}{c2}"), idx)),
+        };
+        res.extend_from_slice(value.encode_utf8(&mut buf).as_bytes());
+    }
+    Ok(res)
+}
+
 /// Parse the provided quoted string.
 /// This function was adopted from [snailquote](https://docs.rs/snailquote/latest/snailquote/).
 ///
@@ -174,6 +279,7 @@ pub fn parse_bytes(s: &str) -> Result<Vec<u8>, ParseSequenceError> {
 ///
 /// The returned result can display a human readable error if the string cannot be parsed as a
 /// valid quoted string.
+#[cfg(test)] // superseded by `parse_literal`; only exercised by the unit tests below
 pub fn parse_string(s: &str) -> Result<String, ParseSequenceError> {
     let mut chars = s.chars().enumerate();
     let res = String::with_capacity(s.len());
@@ -185,6 +291,8 @@ pub fn parse_string(s: &str) -> Result<String, ParseSequenceError> {
     }
 }
 
+// Superseded by `parse_literal`; only exercised by this module's unit tests.
+#[cfg(test)]
 fn parse_raw_string(
     chars: &mut Enumerate<Chars>,
     mut res: String,
@@ -247,6 +355,8 @@ fn parse_raw_string(
     Ok(res)
 }
 
+// Superseded by `parse_literal`; only exercised by this module's unit tests.
+#[cfg(test)]
 fn parse_quoted_string(
     s: &str,
     mut chars: &mut Enumerate<Chars>,
@@ -361,6 +471,8 @@ fn parse_quoted_string(
     Ok(res)
 }
 
+// Superseded by `parse_literal`; only exercised by this module's unit tests.
+#[cfg(test)]
 fn parse_unicode_hex<I>(length: usize, chars: &mut I) -> Result<char, ParseUnicodeError>
 where
     I: Iterator<Item = (usize, char)>,
@@ -375,6 +487,8 @@ where
         .and_then(|u| char::from_u32(u).ok_or(ParseUnicodeError::Unicode { value: u }))
 }
 
+// Superseded by `parse_literal`; only exercised by this module's unit tests.
+#[cfg(test)]
 fn parse_unicode_oct<I>(first_char: &char, chars: &mut I) -> Result<char, ParseUnicodeError>
 where
     I: Iterator<Item = (usize, char)>,
